@@ -112,6 +112,24 @@ fn bad_node<const N: usize>(ks: &[u8; N], l_lo: usize, l_hi: usize, r_lo: usize,
         && (class_of(ks[l_hi]) == 0 || (l_lo == 0 && class_of(ks[0]) == 1 && class_of(ks[l_hi]) == 1))
 }
 
+// adjacency rule only (a trailing separator is allowed): used where no path depth is involved
+fn ground_truth_any_end<const N: usize>(ks: &[u8; N], _ms: &[usize; N]) -> bool {
+    let mut prev: u8 = 9;
+    let mut i = 0;
+    while i < N {
+        if ks[i] >= KINDS || (ks[i] == 7 && i != 0) {
+            return false;
+        }
+        let c = class_of(ks[i]);
+        if prev != 9 && prev != 0 && c != 0 {
+            return false;
+        }
+        prev = c;
+        i += 1;
+    }
+    true
+}
+
 fn cj(a: ST, b: ST) -> ST {
     ops::conjunction(a, b)
 }
@@ -400,6 +418,35 @@ fn ob_c09_exh_finalize_repetition_stride(t: u8, n: usize, lower: usize, has_uppe
     assert!(!v2.is_exhaustive(), "C09 a repetition of a body that spans two or more components is never always-exhaustive");
 }
 
+//@ob C09.exh.finalize.repetition-stride.small
+//@ props: C09 C05
+//@ kind: bounded(stride n in 2..=4 and repetition bounds lower <= 3, upper <= 3 or open, all enumerated: stays decidable when a change makes this path multiply)
+//@ fns: src/token/variance/mod.rs::TreeExhaustiveness::finalize
+//@ pre: as C09.exh.finalize.repetition-stride with small enumerated stride and bounds
+//@ post: the finalised term is not exhaustive
+fn ob_c09_exh_finalize_repetition_stride_small(t: u8, n: u8, lo: u8, hi: u8) {
+    vassume!(t <= 4 && n >= 2 && n <= 4 && lo <= 3 && hi <= 4 && hi >= 1 && (hi == 4 || lo <= hi));
+    let upper = match hi {
+        1 => Some(1),
+        2 => Some(2),
+        3 => Some(3),
+        _ => None,
+    };
+    let rep = mk_repetition(match lo { 0 => 0, 1 => 1, 2 => 2, _ => 3 }, upper);
+    let v: TV = match n {
+        2 => Variance::Invariant(Depth::new(2)),
+        3 => Variance::Invariant(Depth::new(3)),
+        _ => Variance::Invariant(Depth::new(4)),
+    };
+    let term: InvariantTerm<Depth> = Composition::Conjunctive(SeparatedTerm(mk_termination(t), v));
+    vcover!(lo == 1 && hi == 4);
+    let mut fold = variance::TreeExhaustiveness;
+    let out = crate::token::walk::Fold::<()>::finalize(&mut fold, &rep, term);
+    core::mem::forget(rep);
+    let v2 = unwrap_conjunctive(out);
+    assert!(!v2.is_exhaustive(), "C09 a repetition of a body that spans two or more components is never always-exhaustive");
+}
+
 //@ob C09.exh.finalize.repetition-unit
 //@ props: C09 C05
 //@ kind: bounded(repetition bounds enumerated: lower <= 3, upper <= 3 or open)
@@ -554,6 +601,78 @@ fn ob_c12_leaf_is_rooting(k: u8) {
     assert!(l.is_capturing() == matches!(k, 1 | 2 | 3 | 4 | 6 | 7), "C04/C12 classes and wildcards capture");
 }
 
+//@ob C12.components.len3
+//@ props: C12 C05
+//@ kind: bounded(concatenations of exactly 3 leaf tokens; every leaf kind symbolic, adjacency rule T6)
+//@ unwind: 6
+//@ fns: src/token/mod.rs::components src/token/mod.rs::Component::tokens src/token/mod.rs::Token::boundary src/token/mod.rs::Token::as_wildcard
+//@ pre: a rule-respecting sequence of 3 leaf tokens
+//@ post: the REAL components() yields, in order, exactly the components of the path expression: separators delimit and belong to no component, a tree wildcard is a component of its own, every other component is a maximal run of text leaves (so a component spelled entirely as the literal `.` or `..` is seen as such, also next to a tree wildcard)
+fn ob_c12_components_len3(ks: [u8; 3]) {
+    let ms = [0usize; 3];
+    vassume!(ground_truth_any_end(&ks, &ms));
+    let tokens: [Token<'static, ()>; 3] = [Token::new(leaf(ks[0]), ()), Token::new(leaf(ks[1]), ()), Token::new(leaf(ks[2]), ())];
+    vcover!(ks[0] == 0 && ks[1] == 6 && ks[2] == 0);
+    vcover!(ks[0] == 0 && ks[1] == 5 && ks[2] == 1);
+    vcover!(ks[0] == 5 && ks[1] == 0 && ks[2] == 5);
+    let mut it = components(&tokens);
+    let mut i = 0usize;
+    while i < 3 {
+        let c = class_of(ks[i]);
+        if c == 1 {
+            i += 1;
+            continue;
+        }
+        let start = i;
+        let len = if c == 2 {
+            1
+        }
+        else {
+            let mut j = i;
+            while j < 3 && class_of(ks[j]) == 0 {
+                j += 1;
+            }
+            j - i
+        };
+        match it.next() {
+            Some(component) => {
+                assert!(component.tokens().len() == len, "C12 a component is a tree wildcard or a maximal run of text leaves");
+                assert!(core::ptr::eq(component.tokens().as_ptr(), tokens[start..].as_ptr()), "C12 components come in order and skip exactly the separators");
+            },
+            None => assert!(false, "C12 no component is dropped"),
+        }
+        i = start + len;
+    }
+    assert!(it.next().is_none(), "C12 no component is invented");
+    core::mem::forget(it);
+    core::mem::forget(tokens);
+}
+
+//@ob C12.literal.semantic
+//@ props: C12 C05
+//@ kind: bounded(components of one literal token of 1..=3 ASCII characters; a component of several literal tokens goes through itertools' `join` (fmt machinery) and ran out of memory)
+//@ unwind: 8
+//@ fns: src/token/mod.rs::LiteralSequence::is_semantic_literal src/token/mod.rs::LiteralSequence::text src/token/mod.rs::Component::literal
+//@ pre: a component made of one literal token (any ASCII text of 1..=3 characters)
+//@ post: it is a literal sequence and it is a semantic literal <=> its text is `.` or `..`
+fn ob_c12_literal_semantic(n: u8, a1: u8, a2: u8, a3: u8) {
+    vassume!(n >= 1 && n <= 3 && a1 < 128 && a2 < 128 && a3 < 128);
+    let buf = [a1, a2, a3];
+    // SAFETY: ASCII bytes are valid UTF-8.
+    let text = unsafe { core::str::from_utf8_unchecked(&buf[..n as usize]) };
+    let tokens: [Token<'_, ()>; 1] = [Token::new(LeafKind::Literal(Literal { text: Cow::Borrowed(text), is_case_insensitive: false }), ())];
+    // the borrow is of a local buffer: shorten the claimed lifetime by forgetting the tokens below
+    let component = Component(&tokens[..]);
+    vcover!(n == 2 && a1 == b'.' && a2 == b'.');
+    vcover!(n == 3 && a1 == b'.' && a2 == b'.' && a3 == b'.');
+    let expected = a1 == b'.' && (n == 1 || (n == 2 && a2 == b'.'));
+    match component.literal() {
+        Some(sequence) => assert!(sequence.is_semantic_literal() == expected, "C12 a component is a semantic literal exactly when it is spelled `.` or `..`"),
+        None => assert!(false, "C12 a component of literals is a literal sequence"),
+    }
+    core::mem::forget(tokens);
+}
+
 // ---------------------------------------------------------------------------------------------
 // C17: un-rooting a tree wildcard moves its span past the separator
 // ---------------------------------------------------------------------------------------------
@@ -639,6 +758,33 @@ fn ob_c19_owned_leaf(k: u8) {
     }
 }
 
+//@ob C19.repetition.compose-roundtrip
+//@ props: C19 C05
+//@ kind: complete
+//@ unwind: 4
+//@ fns: src/token/mod.rs::Repetition::decompose src/token/mod.rs::Repetition::compose src/token/mod.rs::Repetition::variance src/token/mod.rs::Repetition::bound_specification
+//@ pre: a real repetition (Box child) with any ordered bounds lower <= upper or an open upper bound (all usize; T6: misordered bounds are rejected by the rule checker)
+//@ post: the REAL decompose followed by the REAL compose -- the step fold_map performs at every repetition when a glob is re-owned, re-parsed into a combinator or partitioned -- gives back a repetition with exactly the same bounds
+fn ob_c19_repetition_compose_roundtrip(lower: usize, has_upper: bool, upper: usize) {
+    vassume!(!has_upper || lower <= upper);
+    let bound = if has_upper { Some(upper) } else { None };
+    let rep: Repetition<'static, ()> = Repetition { token: Box::new(Token::new(leaf(5), ())), lower, upper: bound };
+    vcover!(has_upper && lower != 0 && lower < upper);
+    vcover!(has_upper && lower == upper);
+    vcover!(!has_upper && lower == 0);
+    let (data, tokens) = BranchComposition::decompose(rep);
+    match <Repetition<'static, ()> as BranchComposition>::compose(data, tokens) {
+        Ok(back) => {
+            let (l2, u2) = back.bound_specification();
+            assert!(l2 == lower, "C19 the lower bound of a repetition survives decompose / compose");
+            assert!(u2 == bound, "C19 the upper bound of a repetition survives decompose / compose");
+            assert!(matches!(back.token().as_leaf(), Some(LeafKind::Separator(_))), "C19 the body survives decompose / compose");
+            core::mem::forget(back); // no recursive drop glue in the goto program
+        },
+        Err(_) => assert!(false, "C19 composing the decomposed repetition succeeds"),
+    }
+}
+
 //@ob C10.token.canary
 //@ props: C10
 //@ kind: canary
@@ -647,6 +793,6 @@ fn ob_c19_owned_leaf(k: u8) {
 //@ post: must FAIL
 fn ob_c10_token_canary(k: u8) {
     vassume!(k < KINDS);
-    let v = real_leaf_term(k).finalize();
-    assert!(mem(&v, 1), "canary");
+    let _ = real_leaf_term(k).finalize();
+    assert!(k != 3, "canary");
 }
